@@ -225,6 +225,12 @@ def run(tier: str, replay=None) -> int:
     for o1 in BIN:
         for o2 in BIN:
             cases.append([("atom", "a"), ("op", o1), ("atom", "b"), ("op", o2), ("atom", "c")])
+    # a postfix ++/-- in front of every binary operator (several of them are unary operators as well: maximal munch)
+    for pf in ("++", "--"):
+        for o in BIN:
+            cases.append([("atom", "a"), ("op", pf), ("op", o), ("atom", "b")])
+            cases.append([("atom", "c"), ("op", o), ("atom", "a"), ("op", pf), ("op", o), ("atom", "b")])
+    n_directed = len(cases)
     for _ in range(n):
         tl = []
         toks(gen_tree(rng, rng.randint(1, 5 if tier == "quick" else 6)), rng, tl)
